@@ -1,12 +1,14 @@
 #!/bin/sh
-# tools/mutant.sh <patch.diff> <ID> [tier]: apply a property-breaking patch to /repo, run the check, undo.
+# tools/mutant.sh <patch.diff> <ID> [tier]: apply a property-breaking patch to a scratch worktree of /repo, run the
+# check against it (VERIF_REPO / VERIF_OUT: neither /repo nor /verif/evidence is touched), remove the worktree.
 # Prints the verdict line; exit 0 if the check reported a VIOLATION (mutant caught).
 patch="$(realpath "$1")"; id="$2"; tier="${3:-quick}"
-cd /repo || exit 2
-if ! git diff --quiet; then echo "repo dirty"; exit 2; fi
-git apply "$patch" || { echo "patch does not apply"; exit 2; }
-out=$(/verif/run.sh "$id" "$tier" 2>&1); rc=$?
-git -C /repo checkout -- . 
+tag="$(basename "$patch" .diff)-$$"
+wt=/tmp/mu-wt-$tag; od=/tmp/mu-out-$tag
+git -C /repo worktree add -q --detach $wt HEAD || exit 2
+( cd $wt && git apply "$patch" ) || { echo "patch does not apply"; git -C /repo worktree remove --force $wt; exit 2; }
+out=$(VERIF_REPO=$wt VERIF_OUT=$od /verif/run.sh "$id" "$tier" 2>&1); rc=$?
+git -C /repo worktree remove --force $wt; rm -rf $od
 echo "$out" | grep -E "^(VIOLATION|KNOWN-FINDING|HARNESS-ERROR|SUMMARY)" | head -5
 echo "$out" | grep -A3 "^VIOLATION" | head -8
 echo "mutant $(basename $patch) on $id: rc=$rc"
